@@ -650,7 +650,11 @@ func init() {
 		notDecided:  []string{"that Rank and Unrank are mutually inverse and agree with CombinationsColex", "termination of Unrank beyond absence of silent wrap"},
 		assumptions: []string{"64-bit int/uint (the sizes go/types uses for this build)", "math/big Binomial"},
 		run: func(c *Ctx, tier string) []*RuleResult {
-			return []*RuleResult{ruleTable(c), ruleOvf(c, "comb", map[string]bool{"comb.CoeffUint64": true})}
+			pure := &RuleResult{Rule: "PURE", Doc: "the functions of package comb are functions of their arguments only: they write no package-level or argument memory (a memo keyed by a lossy packing of (n, k) would make the answer depend on earlier calls)", MinInst: 5}
+			for _, n := range []string{"comb.CoeffUint64", "comb.Coeff", "comb.Coeffs", "comb.Rank", "comb.Unrank"} {
+				noWrites(c, pure, c.Fn(n), nil, "its arguments or any shared state")
+			}
+			return []*RuleResult{ruleTable(c), ruleOvf(c, "comb", map[string]bool{"comb.CoeffUint64": true}), pure}
 		},
 		controls: func(ctl *Ctx) []*RuleResult {
 			return []*RuleResult{ruleOvf(ctl, "ovfctl", nil), ruleTable(ctl), ruleOvf(ctl, "comb", map[string]bool{"comb.CoeffUint64": true})}
